@@ -16,7 +16,7 @@ LEVEL = "exploration"
 RULE = ("case = (mode a|b|c, configuration, two history seeds); non-trivial = >= 10 probe queries compared of which "
         ">= 1 was answered from >= 2 tree pieces (a, b) / >= 5 probes differ (c); distinct = distinct case keys")
 ASSUMPTIONS = ["dyadic mode: probes lie on the tolerance grid (times are quantised to tol by design)"]
-REQUIRED_COUNTERS = ["a_probes", "b_probes", "b_multi_piece", "c_probes", "b_with_A", "b_tree_wrapper",
+REQUIRED_COUNTERS = ["b_nodes_below_float32_time_resolution", "a_probes", "b_probes", "b_multi_piece", "c_probes", "b_with_A", "b_tree_wrapper",
                      "b_histories_differ", "point_probes", "twin_under_default_float32", "b_offgrid_probes",
                      "b_near_duplicate_queries"]
 CASE_TIMEOUT = 900
@@ -34,6 +34,13 @@ def cases(tier, seed):
                 if wr == "interval":
                     cfg.update(halfway=True, tol=crng.choice([1e-2, 1e-3, 1e-5, 1e-6]), dt=None)
                     cfg.pop("dt_mode", None)
+                    # dyadic nodes far below the resolution of single-precision time stamps: a time axis far from zero
+                    # relative to the tolerance, or a very fine tolerance (plain W: no supplied end values to rescale)
+                    r_ = crng.random()
+                    if r_ < 0.2:
+                        cfg.update(t0=1000.0, t1=1001.0, tol=1e-6, supply="none")
+                    elif r_ < 0.35:
+                        cfg.update(tol=crng.choice([1e-8, 1e-9]))
             else:
                 wr = crng.choice(["interval", "interval", "interval", "tree", "reverse", "path"])
                 cfg = bmgen.random_config(crng, wrappers=(wr,))
@@ -97,6 +104,8 @@ def run_case(case):
                     bmx(bmgen.pick_time(cfg, rx, 1.0))
         if mode == "b" and (q1 != q2):
             cnt["b_histories_differ"] = 1
+        if mode == "b" and cfg.get("tol", 0) > 0 and 1.2e-7 * max(abs(cfg["t0"]), abs(cfg["t1"])) >= 3 * cfg["tol"]:
+            cnt["b_nodes_below_float32_time_resolution"] = 1
         pr = _probes(cfg, random.Random(case["p"]))
         if mode == "b" and cfg.get("tol", 0) > 0:
             # dyadic mode, probes OFF the tolerance grid: the value may depend on the entropy, the options and the query
